@@ -53,6 +53,7 @@ KeySet ==
     [] KeySetName = "ab"    -> {<<97>>, <<98>>}
     [] KeySetName = "nest"  -> {<<97>>, <<100, 47, 120>>, <<100, 47, 121>>}     \* a, d/x, d/y
     [] KeySetName = "nest2" -> {<<97>>, <<100, 47, 120>>}                       \* a, d/x
+    [] KeySetName = "nest3" -> {<<100, 47, 120>>, <<100, 47, 121>>, <<100, 47, 122>>, <<101>>}   \* d/x, d/y, d/z, e
     \* C10: hostile but canonical keys (no '.', '..' or empty path segments): leading dot, backslash,
     \* percent-encoded bytes, names of the backends' internal storage, a key that looks like "otherbucket/key"
     [] KeySetName = "hostile1" -> {<<46, 104>>, <<97, 92, 98>>, <<97, 37, 50, 70, 98>>}                     \* .h  a\b  a%2Fb
